@@ -21,6 +21,11 @@
 (*                        a sender still up writes one more frame, then     *)
 (*                        stop_all_streams, on_close, tasks cancelled)      *)
 (*                                                                         *)
+(*   reconnect()             : the old connection is closed (on_close if it *)
+(*                       was not closed yet), what was still queued is lost;*)
+(*                       connect() again: last = now ; alive = True ; new   *)
+(*                       tasks whose periods count from this instant        *)
+(*                                                                         *)
 (* Tick is one unit of time: the timers due at the new instant run (their   *)
 (* relative order does not matter: the sender only runs after both), then   *)
 (* the sender drains.  PeerKa is a KEEPALIVE arriving from the server.      *)
@@ -31,6 +36,7 @@ CONSTANTS P,          \* keep-alive period (ticks)
           L,          \* maximum lifetime (ticks)
           MaxClock,
           MaxPeerKa,  \* KEEPALIVE frames the server sends
+          MaxReconnects, \* times the application calls reconnect() (at any moment: healthy, after a time-out, after the close)
           MaxBlocks   \* times the transport stops accepting writes (back-pressure: the sender is stuck in a write)
 
 VARIABLES k          \* the whole state, a record (the actions compose functions on it)
@@ -46,7 +52,9 @@ Init == k = [now |-> 0, last |-> 0, alive |-> TRUE,
              timeouts |-> 0, toSince |-> 0, closes |-> 0,
              gaps |-> <<>>,                   \* history: now - last at each timeout callback
              peerKas |-> 0, owed |-> 0,       \* respond-flagged arrivals
-             framesAfterDead |-> 0]
+             framesAfterDead |-> 0,
+             \* the connection: when it was made, and what the (cumulative) counters were at that moment
+             reconnects |-> 0, base |-> 0, enqBase |-> 0, txBase |-> 0, owedBase |-> 0, echoBase |-> 0]
 
 (* the sender task: writes queued frames; re-evaluates `alive` after each one *)
 RECURSIVE Drain(_)
@@ -62,12 +70,12 @@ Drain(s) ==
             ELSE [s1 EXCEPT !.senderUp = FALSE, !.kaTaskUp = FALSE, !.unsent = @ + Len(s1.sq), !.sq = <<>>]
 
 Watchdog(s) ==
-    IF s.recvUp /\ s.now % L = 0 /\ s.now - s.last > L
+    IF s.recvUp /\ (s.now - s.base) % L = 0 /\ s.now > s.base /\ s.now - s.last > L
     THEN [s EXCEPT !.alive = FALSE, !.timeouts = @ + 1, !.toSince = @ + 1, !.gaps = Append(@, s.now - s.last)]
     ELSE s
 
 KaTimer(s) ==
-    IF s.kaTaskUp /\ s.now % P = 0
+    IF s.kaTaskUp /\ (s.now - s.base) % P = 0 /\ s.now > s.base
     THEN IF s.senderUp THEN [s EXCEPT !.sq = Append(@, "ka"), !.enqKa = @ + 1] ELSE [s EXCEPT !.unsent = @ + 1, !.enqKa = @ + 1]
     ELSE s
 
@@ -99,7 +107,17 @@ Unblock == /\ k.blocked
                            [s1 EXCEPT !.senderUp = FALSE, !.kaTaskUp = FALSE, !.unsent = @ + Len(s1.sq), !.sq = <<>>]
                       ELSE Drain(s1)
 
-Next == Tick \/ PeerKa(TRUE) \/ PeerKa(FALSE) \/ Block \/ Unblock
+(* the application reconnects (e.g. from on_keepalive_timeout, or later, or while everything is healthy) *)
+Reconnect ==
+    /\ k.reconnects < MaxReconnects
+    /\ k' = [k EXCEPT !.reconnects = @ + 1, !.base = k.now, !.last = k.now, !.alive = TRUE,
+                      !.closes = IF k.recvUp THEN @ + 1 ELSE @,
+                      !.senderUp = TRUE, !.kaTaskUp = TRUE, !.recvUp = TRUE,
+                      !.unsent = @ + Len(k.sq), !.sq = <<>>, !.blocked = FALSE, !.stuck = FALSE,
+                      !.toSince = 0, !.framesAfterDead = 0,
+                      !.enqBase = k.enqKa, !.txBase = k.txKa, !.owedBase = k.owed, !.echoBase = k.txEcho]
+
+Next == Tick \/ PeerKa(TRUE) \/ PeerKa(FALSE) \/ Block \/ Unblock \/ Reconnect
 Spec == Init /\ [][Next]_vars
 
 ----------------------------------------------------------------------------
@@ -108,13 +126,13 @@ NoFalseTimeout == \A i \in 1..Len(k.gaps) : k.gaps[i] > L
 (* silent for two lifetimes (or more) => the callback has been invoked since the last arrival *)
 TimeoutDetected == (k.recvUp /\ k.now - k.last >= 2 * L) => k.toSince >= 1
 (* arrivals at intervals <= L never let the callback run: by NoFalseTimeout, a callback needs a gap > L *)
-Periodic == (k.alive /\ k.senderUp) => (k.enqKa = k.now \div P /\ (~k.blocked => k.txKa = k.enqKa))
-EchoExactlyOnce == (k.alive /\ ~k.blocked) => k.txEcho = k.owed
-NoEchoWithoutFlag == k.txEcho <= k.owed
+Periodic == (k.alive /\ k.senderUp) => (k.enqKa - k.enqBase = (k.now - k.base) \div P /\ (~k.blocked => k.txKa - k.txBase = k.enqKa - k.enqBase))
+EchoExactlyOnce == (k.alive /\ ~k.blocked) => k.txEcho - k.echoBase = k.owed - k.owedBase
+NoEchoWithoutFlag == k.txEcho - k.echoBase <= k.owed - k.owedBase
 (* implementation-defined aftermath of a timeout, kept as invariants so that a change is noticed *)
 AtMostOneFrameAfterDead == k.framesAfterDead <= 1
 DeadClientClosesAtNextInput == (~k.alive /\ k.recvUp) => k.toSince >= 1
-CloseAtMostOnce == k.closes <= 1
+CloseAtMostOnce == k.closes <= 1 + k.reconnects       \* once per connection
 TypeOK == /\ k.now \in 0..MaxClock /\ k.last <= k.now
           /\ (k.kaTaskUp => k.senderUp)
           /\ (~k.recvUp => ~k.senderUp)
